@@ -129,31 +129,874 @@ theorem compressorGain_eq (p : Gen.CompressorParams ℝ) (hR : 1 ≤ p.R) (hW : 
     Gen.compressorGain eps p x = curve p.T (1 / (p.R : ℝ)) p.W (lvl x) - lvl x := by
   have hRr : (1 : ℝ) ≤ (p.R : ℝ) := by exact_mod_cast hR
   have hR0 : (p.R : ℝ) ≠ 0 := by linarith
-  unfold Gen.compressorGain
+  unfold Gen.compressorGain lvl
   simp only [fn_ofInt, fn_abs, Int.cast_ofNat, Int.cast_one, Gen.abs2r, ge_iff_le, gt_iff_lt]
-  show (if p.T + p.W / 2 ≤ lvl x then _ else _) = _
-  generalize lvl x = l
+  generalize Gen.mag2db (|x| + eps) = l
   split_ifs with h1 h2
   · rw [curve_above hW h1]; field_simp
   · rw [curve_knee h2.1.le h2.2.le]; ring
   · have : l ≤ p.T - p.W / 2 := by
-      by_contra hc; push_neg at hc; exact h2 ⟨hc, lt_of_not_ge h1⟩
+      by_contra hc; exact h2 ⟨lt_of_not_ge hc, lt_of_not_ge h1⟩
     rw [curve_below hW this]
 
 /-- **T20.2 (static_curve, limiter gain computer).**  The GENERATED `Limiter::_compute_gain`
 returns exactly `characteristic(level) − level` with a flat ceiling (`s = 0`). -/
 theorem limiterGain_eq (p : Gen.LimiterParams ℝ) (hW : 0 ≤ p.W) (x : ℝ) :
     Gen.limiterGain eps p x = curve p.T 0 p.W (lvl x) - lvl x := by
-  unfold Gen.limiterGain
+  unfold Gen.limiterGain lvl
   simp only [fn_ofInt, fn_abs, Int.cast_ofNat, Gen.abs2r, ge_iff_le, gt_iff_lt]
-  show (if p.T + p.W / 2 ≤ lvl x then _ else _) = _
-  generalize lvl x = l
+  generalize Gen.mag2db (|x| + eps) = l
   split_ifs with h1 h2
   · rw [curve_above hW h1]; ring
   · rw [curve_knee h2.1.le h2.2.le]; ring
   · have : l ≤ p.T - p.W / 2 := by
-      by_contra hc; push_neg at hc; exact h2 ⟨hc, lt_of_not_ge h1⟩
+      by_contra hc; exact h2 ⟨lt_of_not_ge hc, lt_of_not_ge h1⟩
     rw [curve_below hW this]
+
+/-! ## Shape of the characteristic: continuity, monotonicity, slopes -/
+
+/-- the amount the characteristic stays below the diagonal, per unit of `1 - s` -/
+def psi (T W l : ℝ) : ℝ :=
+  if l < T - W / 2 then 0
+  else if l ≤ T + W / 2 then (l - T + W / 2) ^ 2 / (2 * W)
+  else l - T
+
+theorem curve_eq_psi (T s W l : ℝ) : curve T s W l = l - (1 - s) * psi T W l := by
+  unfold curve psi
+  split_ifs <;> ring
+
+/-- region certificate for `psi` (no division left) -/
+theorem psi_cert {T W : ℝ} (hW : 0 ≤ W) (l : ℝ) :
+    (l ≤ T - W / 2 ∧ psi T W l = 0) ∨
+    (T - W / 2 ≤ l ∧ l ≤ T + W / 2 ∧ 0 < W ∧ psi T W l * (2 * W) = (l - T + W / 2) ^ 2) ∨
+    (T + W / 2 ≤ l ∧ psi T W l = l - T) := by
+  unfold psi
+  split_ifs with h1 h2
+  · left; exact ⟨h1.le, rfl⟩
+  · rcases hW.eq_or_lt with h0 | h0
+    · subst h0
+      have : l = T := by linarith [not_lt.mp h1]
+      subst this
+      left; simp
+    · right; left
+      refine ⟨not_lt.mp h1, h2, h0, ?_⟩
+      field_simp
+  · right; right; exact ⟨(not_le.mp h2).le, rfl⟩
+
+theorem psi_diff_bounds {T W a b : ℝ} (hW : 0 ≤ W) (hab : a ≤ b) :
+    0 ≤ psi T W b - psi T W a ∧ psi T W b - psi T W a ≤ b - a := by
+  rcases psi_cert (T := T) hW a with ⟨ha, ea⟩ | ⟨ha1, ha2, hWp, ea⟩ | ⟨ha, ea⟩ <;>
+  rcases psi_cert (T := T) hW b with ⟨hb, eb⟩ | ⟨hb1, hb2, hWp', eb⟩ | ⟨hb, eb⟩
+  · rw [ea, eb]; constructor <;> linarith
+  · -- a below, b in the knee
+    have hu0 : 0 ≤ b - T + W / 2 := by linarith
+    have hu1 : b - T + W / 2 ≤ W := by linarith
+    constructor
+    · rw [ea]; nlinarith [sq_nonneg (b - T + W / 2)]
+    · rw [ea]; nlinarith [mul_nonneg hu0 (sub_nonneg.mpr hu1)]
+  · rw [ea, eb]; constructor <;> linarith
+  · -- a in the knee, b below: a = b = T - W/2
+    have : a = b := by linarith
+    subst this; constructor <;> linarith
+  · -- both in the knee
+    have hua0 : 0 ≤ a - T + W / 2 := by linarith
+    have hub1 : b - T + W / 2 ≤ W := by linarith
+    constructor
+    · nlinarith [mul_nonneg (sub_nonneg.mpr hab) (add_nonneg hua0 (by linarith : 0 ≤ b - T + W / 2))]
+    · nlinarith [mul_nonneg (sub_nonneg.mpr hab) (by linarith : 0 ≤ 2 * W - ((a - T + W / 2) + (b - T + W / 2)))]
+  · -- a in the knee, b above
+    have hua0 : 0 ≤ a - T + W / 2 := by linarith
+    have hua1 : a - T + W / 2 ≤ W := by linarith
+    constructor
+    · rw [eb]; nlinarith [mul_nonneg hua0 (sub_nonneg.mpr hua1)]
+    · rw [eb]; nlinarith [sq_nonneg (a - T + W / 2 - W)]
+  · rw [ea, eb]; constructor <;> linarith
+  · -- a above, b in the knee: a = b = T + W/2
+    have : a = b := by linarith
+    subst this; constructor <;> linarith
+  · rw [ea, eb]; constructor <;> linarith
+
+/-- **T20.2 (knee_monotone + knee_continuous, quantitative form).**  Between any two levels `a ≤ b` the
+characteristic rises by at least `s·(b − a)` and at most `b − a`: it is monotone, never steeper than the
+diagonal (so it has no jump — in particular none at the knee edges `T ± W/2`) and never flatter than `s`. -/
+theorem curve_diff_bounds {T s W a b : ℝ} (_hs0 : 0 ≤ s) (hs1 : s ≤ 1) (hW : 0 ≤ W) (hab : a ≤ b) :
+    s * (b - a) ≤ curve T s W b - curve T s W a ∧ curve T s W b - curve T s W a ≤ b - a := by
+  obtain ⟨h0, h1⟩ := psi_diff_bounds (T := T) hW hab
+  rw [curve_eq_psi, curve_eq_psi]
+  constructor
+  · nlinarith [mul_nonneg (sub_nonneg.mpr hs1) (sub_nonneg.mpr h1)]
+  · nlinarith [mul_nonneg (sub_nonneg.mpr hs1) h0]
+
+/-- **T20.2 (knee_monotone).** -/
+theorem curve_monotone {T s W : ℝ} (hs0 : 0 ≤ s) (hs1 : s ≤ 1) (hW : 0 ≤ W) : Monotone (curve T s W) := by
+  intro a b hab
+  have := (curve_diff_bounds (T := T) hs0 hs1 hW hab).1
+  nlinarith [mul_nonneg hs0 (sub_nonneg.mpr hab)]
+
+/-- the characteristic is 1-Lipschitz -/
+theorem curve_lipschitz {T s W : ℝ} (hs0 : 0 ≤ s) (hs1 : s ≤ 1) (hW : 0 ≤ W) :
+    LipschitzWith 1 (curve T s W) := by
+  apply LipschitzWith.of_dist_le_mul
+  intro a b
+  simp only [NNReal.coe_one, one_mul, Real.dist_eq]
+  rcases le_total a b with hab | hab
+  · obtain ⟨h1, h2⟩ := curve_diff_bounds (T := T) hs0 hs1 hW hab
+    have h3 : 0 ≤ s * (b - a) := mul_nonneg hs0 (sub_nonneg.mpr hab)
+    rw [abs_sub_comm, abs_of_nonneg (by linarith), abs_sub_comm, abs_of_nonneg (by linarith)]
+    exact h2
+  · obtain ⟨h1, h2⟩ := curve_diff_bounds (T := T) hs0 hs1 hW hab
+    have h3 : 0 ≤ s * (a - b) := mul_nonneg hs0 (sub_nonneg.mpr hab)
+    rw [abs_of_nonneg (by linarith), abs_of_nonneg (by linarith)]
+    exact h2
+
+/-- **T20.2 (knee_continuous).**  The characteristic is continuous on the whole level axis. -/
+theorem curve_continuous {T s W : ℝ} (hs0 : 0 ≤ s) (hs1 : s ≤ 1) (hW : 0 ≤ W) : Continuous (curve T s W) :=
+  (curve_lipschitz hs0 hs1 hW).continuous
+
+/-- knee edges, explicitly: the knee formula meets the unity line at `T − W/2` … -/
+theorem knee_meets_unity {T s W : ℝ} (_hW : 0 < W) :
+    (T - W / 2) + (s - 1) * ((T - W / 2) - T + W / 2) ^ 2 / (2 * W) = T - W / 2 := by
+  have : (T - W / 2) - T + W / 2 = 0 := by ring
+  rw [this]; simp
+
+/-- … and the compression line at `T + W/2` -/
+theorem knee_meets_line {T s W : ℝ} (hW : 0 < W) :
+    (T + W / 2) + (s - 1) * ((T + W / 2) - T + W / 2) ^ 2 / (2 * W) = T + ((T + W / 2) - T) * s := by
+  field_simp; ring
+
+/-- **T20.2 (slope `1/ratio` above the knee).** -/
+theorem curve_slope_above {T s W a b : ℝ} (hW : 0 ≤ W) (ha : T + W / 2 ≤ a) (hb : T + W / 2 ≤ b) :
+    curve T s W b - curve T s W a = s * (b - a) := by
+  rw [curve_above hW ha, curve_above hW hb]; ring
+
+/-- unity below the knee: levels up to `T − W/2` are left alone -/
+theorem curve_unity_below {T s W l : ℝ} (hW : 0 ≤ W) (h : l ≤ T - W / 2) : curve T s W l = l :=
+  curve_below hW h
+
+theorem psi_nonneg {T W : ℝ} (hW : 0 ≤ W) (l : ℝ) : 0 ≤ psi T W l := by
+  rcases psi_cert (T := T) hW l with ⟨_, e⟩ | ⟨_, _, hWp, e⟩ | ⟨h, e⟩
+  · rw [e]
+  · by_contra hc
+    have : psi T W l * (2 * W) < 0 := mul_neg_of_neg_of_pos (not_le.mp hc) (by linarith)
+    nlinarith [sq_nonneg (l - T + W / 2)]
+  · rw [e]; linarith
+
+/-- the characteristic never lies above the diagonal (no level is raised) -/
+theorem curve_le_self {T s W : ℝ} (hs1 : s ≤ 1) (hW : 0 ≤ W) (l : ℝ) : curve T s W l ≤ l := by
+  rw [curve_eq_psi]
+  nlinarith [mul_nonneg (sub_nonneg.mpr hs1) (psi_nonneg (T := T) hW l)]
+
+/-- flat ceiling: the limiter characteristic never exceeds the threshold -/
+theorem curve_limiter_le {T W : ℝ} (hW : 0 ≤ W) (l : ℝ) : curve T 0 W l ≤ T := by
+  rw [curve_eq_psi]
+  rcases psi_cert (T := T) hW l with ⟨h, e⟩ | ⟨h1, h2, hWp, e⟩ | ⟨h, e⟩
+  · rw [e]; linarith
+  · nlinarith [sq_nonneg (l - T - W / 2)]
+  · rw [e]; linarith
+
+/-! ## Smoothing (T20.4) -/
+
+theorem smooth_real (wA wR gs gc : ℝ) :
+    smooth wA wR gs gc = if gc ≤ gs then wA * gs + (1 - wA) * gc else wR * gs + (1 - wR) * gc := by
+  simp [smooth]
+
+/-- **T20.4 (smoothing_monotone), exact form.**  One smoothing step multiplies the distance to the target `gc`
+by the attack coefficient (target at or below the current gain) or the release coefficient (target above). -/
+theorem smooth_sub (wA wR gs gc : ℝ) :
+    smooth wA wR gs gc - gc = (if gc ≤ gs then wA else wR) * (gs - gc) := by
+  rw [smooth_real]; split_ifs <;> ring
+
+/-- **T20.4 (smoothing_monotone).**  With coefficients in `[0,1]` the smoothed gain moves towards its target:
+the distance does not grow and the side (above / below the target) is preserved — no overshoot. -/
+theorem smoothing_monotone {wA wR : ℝ} (hA0 : 0 ≤ wA) (hA1 : wA ≤ 1) (hR0 : 0 ≤ wR) (hR1 : wR ≤ 1) (gs gc : ℝ) :
+    |smooth wA wR gs gc - gc| ≤ |gs - gc| ∧ 0 ≤ (smooth wA wR gs gc - gc) * (gs - gc) := by
+  rw [smooth_sub]
+  set w := (if gc ≤ gs then wA else wR) with hw
+  have hw0 : 0 ≤ w := by rw [hw]; split_ifs <;> assumption
+  have hw1 : w ≤ 1 := by rw [hw]; split_ifs <;> assumption
+  constructor
+  · rw [abs_mul, abs_of_nonneg hw0]
+    exact mul_le_of_le_one_left (abs_nonneg _) hw1
+  · nlinarith [mul_nonneg hw0 (mul_self_nonneg (gs - gc))]
+
+/-- the smoothed gain stays between its previous value and the target -/
+theorem smooth_between {wA wR : ℝ} (hA0 : 0 ≤ wA) (hA1 : wA ≤ 1) (hR0 : 0 ≤ wR) (hR1 : wR ≤ 1) (gs gc : ℝ) :
+    min gs gc ≤ smooth wA wR gs gc ∧ smooth wA wR gs gc ≤ max gs gc := by
+  rw [smooth_real]
+  split_ifs with h
+  · rw [min_eq_right h, max_eq_left h]
+    constructor <;> nlinarith [mul_nonneg hA0 (sub_nonneg.mpr h), mul_nonneg (sub_nonneg.mpr hA1) (sub_nonneg.mpr h)]
+  · have h' := (not_le.mp h).le
+    rw [min_eq_left h', max_eq_right h']
+    constructor <;> nlinarith [mul_nonneg hR0 (sub_nonneg.mpr h'), mul_nonneg (sub_nonneg.mpr hR1) (sub_nonneg.mpr h')]
+
+theorem smooth_nonpos {wA wR : ℝ} (hA0 : 0 ≤ wA) (hA1 : wA ≤ 1) (hR0 : 0 ≤ wR) (hR1 : wR ≤ 1) {gs gc : ℝ}
+    (hgs : gs ≤ 0) (hgc : gc ≤ 0) : smooth wA wR gs gc ≤ 0 :=
+  le_trans (smooth_between hA0 hA1 hR0 hR1 gs gc).2 (max_le hgs hgc)
+
+/-- with zero attack AND release coefficient the smoothed gain IS the computed gain -/
+theorem smooth_zero (gs gc : ℝ) : smooth 0 0 gs gc = gc := by
+  rw [smooth_real]; split_ifs <;> ring
+
+/-- with zero attack coefficient the smoothed gain never exceeds the computed gain -/
+theorem smooth_zero_attack_le {wR : ℝ} (hR0 : 0 ≤ wR) (gs gc : ℝ) : smooth 0 wR gs gc ≤ gc := by
+  rw [smooth_real]
+  split_ifs with h
+  · linarith
+  · nlinarith [mul_nonneg hR0 (sub_nonneg.mpr (not_le.mp h).le)]
+
+/-! ### time constants -/
+
+theorem coef_real (fs t : ℝ) :
+    coef fs t = if fs * t = 0 then 0 else Real.exp (-(Real.log 9) / (fs * t)) := by
+  unfold coef
+  simp only [fn_ofNat, fn_exp, fn_log, Nat.cast_zero, Nat.cast_ofNat]
+  by_cases h : fs * t = 0
+  · rw [if_pos h, if_pos ⟨h.le, h.ge⟩]
+  · rw [if_neg h, if_neg (fun hh => h (le_antisymm hh.1 hh.2))]
+
+/-- attack / release time 0 ⇒ coefficient 0 (the C++ evaluates `exp(-inf)`) -/
+theorem coef_zero (fs : ℝ) : coef fs 0 = 0 := by
+  rw [coef_real]; simp
+
+/-- **T20.4 (time constants).**  `w = exp(−ln 9 / (fs·t))` for a positive time `t` -/
+theorem coef_pos_time {fs t : ℝ} (hfs : 0 < fs) (ht : 0 < t) :
+    coef fs t = Real.exp (-(Real.log 9) / (fs * t)) := by
+  rw [coef_real, if_neg (mul_pos hfs ht).ne']
+
+/-- every admitted time gives a coefficient in `[0, 1)` -/
+theorem coef_mem {fs t : ℝ} (hfs : 0 < fs) (ht : 0 ≤ t) : 0 ≤ coef fs t ∧ coef fs t < 1 := by
+  rcases ht.eq_or_lt with h | h
+  · subst h; rw [coef_zero]; exact ⟨le_refl _, one_pos⟩
+  · rw [coef_pos_time hfs h]
+    refine ⟨(Real.exp_pos _).le, ?_⟩
+    rw [Real.exp_lt_one_iff]
+    have h9 : 0 < Real.log 9 := Real.log_pos (by norm_num)
+    exact div_neg_of_neg_of_pos (by linarith) (mul_pos hfs h)
+
+/-- **T20.4 (time constants): meaning of the configured time.**  If `fs·t` is a whole number `n ≥ 1` of samples,
+`n` smoothing steps shrink the distance to a constant target by exactly the factor 9 — the gain covers the
+span from 10 % to 90 % of a step in `t` seconds. -/
+theorem coef_pow_samples {fs t : ℝ} (n : ℕ) (hn : 0 < n) (h : (n : ℝ) = fs * t) : coef fs t ^ n = 1 / 9 := by
+  have hn' : (0 : ℝ) < n := by exact_mod_cast hn
+  rw [coef_real, if_neg (by rw [← h]; exact hn'.ne'), ← h, ← Real.exp_nat_mul]
+  have : (n : ℝ) * (-(Real.log 9) / n) = -Real.log 9 := by field_simp
+  rw [this, Real.exp_neg, Real.exp_log (by norm_num)]; norm_num
+
+/-- `n` attack steps towards a constant target at or below the current gain -/
+theorem smooth_iter_attack {wA wR : ℝ} (hA0 : 0 ≤ wA) {gs gc : ℝ} (h : gc ≤ gs) (n : ℕ) :
+    (fun g => smooth wA wR g gc)^[n] gs - gc = wA ^ n * (gs - gc) ∧ gc ≤ (fun g => smooth wA wR g gc)^[n] gs := by
+  induction n with
+  | zero => simp [h]
+  | succ k ih =>
+    rw [Function.iterate_succ_apply']
+    obtain ⟨e, hk⟩ := ih
+    have := smooth_sub wA wR ((fun g => smooth wA wR g gc)^[k] gs) gc
+    rw [if_pos hk, e] at this
+    refine ⟨by rw [this]; ring, ?_⟩
+    have : 0 ≤ smooth wA wR ((fun g => smooth wA wR g gc)^[k] gs) gc - gc := by
+      rw [this]; exact mul_nonneg hA0 (mul_nonneg (pow_nonneg hA0 k) (sub_nonneg.mpr h))
+    linarith
+
+/-- `n` release steps towards a constant target at or above the current gain -/
+theorem smooth_iter_release {wA wR : ℝ} (hR0 : 0 ≤ wR) {gs gc : ℝ} (h : gs ≤ gc) (n : ℕ) :
+    (fun g => smooth wA wR g gc)^[n] gs - gc = wR ^ n * (gs - gc) ∧ (fun g => smooth wA wR g gc)^[n] gs ≤ gc := by
+  induction n with
+  | zero => simp [h]
+  | succ k ih =>
+    rw [Function.iterate_succ_apply']
+    obtain ⟨e, hk⟩ := ih
+    set gk := (fun g => smooth wA wR g gc)^[k] gs with hgk
+    have hs := smooth_sub wA wR gk gc
+    rcases hk.eq_or_lt with heq | hlt
+    · -- already on the target: stays there
+      have hz : gk - gc = 0 := by linarith
+      rw [hz, mul_zero] at hs
+      have hz' : wR ^ k * (gs - gc) = 0 := by rw [← e]; exact hz
+      refine ⟨by rw [hs, pow_succ, mul_assoc, mul_comm wR, ← mul_assoc, hz', zero_mul], by linarith⟩
+    · rw [if_neg (not_le.mpr hlt), e] at hs
+      refine ⟨by rw [hs]; ring, ?_⟩
+      have : smooth wA wR gk gc - gc ≤ 0 := by
+        rw [hs]
+        exact mul_nonpos_of_nonneg_of_nonpos hR0 (mul_nonpos_of_nonneg_of_nonpos (pow_nonneg hR0 k) (sub_nonpos.mpr h))
+      linarith
+
+/-- **T20.4 (time constants), attack.**  Holding the target at or below the gain for `n = fs·t_attack` samples
+reduces the distance to one ninth. -/
+theorem attack_time_constant {fs ta wR : ℝ} (hfs : 0 < fs) (hta : 0 ≤ ta) (n : ℕ) (hn : 0 < n) (h : (n : ℝ) = fs * ta)
+    {gs gc : ℝ} (hg : gc ≤ gs) :
+    (fun g => smooth (coef fs ta) wR g gc)^[n] gs - gc = (gs - gc) / 9 := by
+  rw [(smooth_iter_attack (coef_mem hfs hta).1 hg n).1, coef_pow_samples n hn h]; ring
+
+/-- **T20.4 (time constants), release.** -/
+theorem release_time_constant {fs tr wA : ℝ} (hfs : 0 < fs) (htr : 0 ≤ tr) (n : ℕ) (hn : 0 < n) (h : (n : ℝ) = fs * tr)
+    {gs gc : ℝ} (hg : gs ≤ gc) :
+    (fun g => smooth wA (coef fs tr) g gc)^[n] gs - gc = (gs - gc) / 9 := by
+  rw [(smooth_iter_release (coef_mem hfs htr).1 hg n).1, coef_pow_samples n hn h]; ring
+
+/-! ## The sample loops: a generic invariant rule
+
+`processWith`, `Gate.process`, `Agc.processR/C` are all "fold the step over the input, push gain and out". -/
+
+theorem foldPush_inv {σ X A B : Type} (f : σ → X → σ × A × B) (I : σ → Prop) (P : X → A → B → Prop)
+    (hstep : ∀ s x, I s → I (f s x).1 ∧ P x (f s x).2.1 (f s x).2.2) (s : σ) (hs : I s) (x : Array X) (c1 c2 : Nat) :
+    let r := x.foldl (fun (acc : σ × Array A × Array B) xi =>
+      ((f acc.1 xi).1, acc.2.1.push (f acc.1 xi).2.1, acc.2.2.push (f acc.1 xi).2.2)) (s, Array.mkEmpty c1, Array.mkEmpty c2)
+    I r.1 ∧ ∃ (h1 : r.2.1.size = x.size) (h2 : r.2.2.size = x.size),
+      ∀ i (hi : i < x.size), P x[i] (r.2.1[i]) (r.2.2[i]) := by
+  intro r
+  have key := Array.foldl_induction (as := x)
+    (motive := fun i (acc : σ × Array A × Array B) => I acc.1 ∧ ∃ (h1 : acc.2.1.size = i) (h2 : acc.2.2.size = i),
+      ∀ j (hj : j < i) (hjx : j < x.size), P x[j] (acc.2.1[j]) (acc.2.2[j]))
+    (init := (s, Array.mkEmpty c1, Array.mkEmpty c2))
+    (f := fun (acc : σ × Array A × Array B) xi =>
+      ((f acc.1 xi).1, acc.2.1.push (f acc.1 xi).2.1, acc.2.2.push (f acc.1 xi).2.2))
+    ⟨hs, by simp, by simp, fun j hj => absurd hj (Nat.not_lt_zero _)⟩
+    (by
+      rintro ⟨i, hi⟩ ⟨st, ga, oa⟩ ⟨hI, h1, h2, hP⟩
+      simp only [Fin.getElem_fin] at hI h1 h2 hP ⊢
+      obtain ⟨hI', hP'⟩ := hstep st x[i] hI
+      refine ⟨hI', by simp [h1], by simp [h2], ?_⟩
+      intro j hj hjx
+      rcases Nat.lt_succ_iff_lt_or_eq.mp hj with hlt | heq
+      · rw [Array.getElem_push_lt (by omega), Array.getElem_push_lt (by omega)]
+        exact hP j hlt hjx
+      · subst heq
+        have e1 : (ga.push (f st x[j]).2.1)[j]'(by simp [h1]) = (f st x[j]).2.1 := by
+          simp [Array.getElem_push, h1]
+        have e2 : (oa.push (f st x[j]).2.2)[j]'(by simp [h2]) = (f st x[j]).2.2 := by
+          simp [Array.getElem_push, h2]
+        rw [e1, e2]; exact hP')
+  obtain ⟨hI, h1, h2, hP⟩ := key
+  exact ⟨hI, h1, h2, fun i hi => hP i hi hi⟩
+
+/-- `processWith` (the loop of `Compressor::process` / `Limiter::process`): if `I` is preserved by the step and
+implies `P x gain out` for the emitted sample, then `I` holds for the final `gs_` and `P` for EVERY sample. -/
+theorem processWith_inv (stp : ℝ → ℝ → Step ℝ) (I : ℝ → Prop) (P : ℝ → ℝ → ℝ → Prop)
+    (hstep : ∀ g x, I g → I (stp g x).gs ∧ P x (stp g x).gain (stp g x).out) (gs : ℝ) (hgs : I gs) (x : Array ℝ) :
+    I (processWith stp gs x).1 ∧
+    ∃ (h1 : (processWith stp gs x).2.1.size = x.size) (h2 : (processWith stp gs x).2.2.size = x.size),
+      ∀ i (hi : i < x.size), P x[i] ((processWith stp gs x).2.1[i]) ((processWith stp gs x).2.2[i]) :=
+  foldPush_inv (fun g xi => ((stp g xi).gs, (stp g xi).gain, (stp g xi).out)) I P hstep gs hgs x x.size x.size
+
+/-! ## Compressor and Limiter: gain range, static curve, ceiling -/
+
+/-- the parameter sets the `Compressor` constructor can produce (for a positive sample rate) -/
+structure Comp.Admissible (p : Comp ℝ) : Prop where
+  ratio : 1 ≤ p.gp.R
+  knee : 0 ≤ p.gp.W
+  wA0 : 0 ≤ p.wA
+  wA1 : p.wA ≤ 1
+  wR0 : 0 ≤ p.wR
+  wR1 : p.wR ≤ 1
+
+structure Lim.Admissible (p : Lim ℝ) : Prop where
+  knee : 0 ≤ p.gp.W
+  wA0 : 0 ≤ p.wA
+  wA1 : p.wA ≤ 1
+  wR0 : 0 ≤ p.wR
+  wR1 : p.wR ≤ 1
+
+/-- every parameter set admitted by `Compressor::Compressor` (sample rate > 0) is `Admissible`,
+and the object stores what was passed -/
+theorem Comp.init_ok {fs : ℕ} (hfs : 0 < fs) {T W ta tr : ℝ} {R : ℤ} {p : Comp ℝ}
+    (h : Comp.init fs T R W ta tr = .ok p) :
+    Comp.Admissible p ∧ p.gp.T = T ∧ p.gp.R = R ∧ p.gp.W = W ∧ p.wA = coef (fs : ℝ) ta ∧ p.wR = coef (fs : ℝ) tr ∧
+      -50 ≤ T ∧ T ≤ 0 ∧ R ≤ 50 ∧ W ≤ 20 := by
+  unfold Comp.init at h
+  simp only [fn_ofNat, fn_ofInt] at h
+  split_ifs at h with h1 h2 h3 h4 h5
+  cases h
+  have hfs' : (0 : ℝ) < (fs : ℝ) := by exact_mod_cast hfs
+  have cA := coef_mem hfs' (by simpa using h4.1 : (0 : ℝ) ≤ ta)
+  have cR := coef_mem hfs' (by simpa using h5.1 : (0 : ℝ) ≤ tr)
+  refine ⟨⟨h2.1, by simpa using h3.1, cA.1, cA.2.le, cR.1, cR.2.le⟩, rfl, rfl, rfl, rfl, rfl, ?_, ?_, h2.2, ?_⟩
+  · simpa using h1.1
+  · simpa using h1.2
+  · simpa using h3.2
+
+theorem Lim.init_ok {fs : ℕ} (hfs : 0 < fs) {T W ta tr : ℝ} {p : Lim ℝ}
+    (h : Lim.init fs T W ta tr = .ok p) :
+    Lim.Admissible p ∧ p.gp.T = T ∧ p.gp.W = W ∧ p.wA = coef (fs : ℝ) ta ∧ p.wR = coef (fs : ℝ) tr ∧
+      -50 ≤ T ∧ T ≤ 0 ∧ W ≤ 20 := by
+  unfold Lim.init at h
+  simp only [fn_ofNat, fn_ofInt] at h
+  split_ifs at h with h1 h3 h4 h5
+  cases h
+  have hfs' : (0 : ℝ) < (fs : ℝ) := by exact_mod_cast hfs
+  have cA := coef_mem hfs' (by simpa using h4.1 : (0 : ℝ) ≤ ta)
+  have cR := coef_mem hfs' (by simpa using h5.1 : (0 : ℝ) ≤ tr)
+  refine ⟨⟨by simpa using h3.1, cA.1, cA.2.le, cR.1, cR.2.le⟩, rfl, rfl, rfl, rfl, ?_, ?_, ?_⟩
+  · simpa using h1.1
+  · simpa using h1.2
+  · simpa using h3.2
+
+/-- the computed gain of the GENERATED compressor gain computer is never positive -/
+theorem compressorGain_nonpos (p : Gen.CompressorParams ℝ) (hR : 1 ≤ p.R) (hW : 0 ≤ p.W) (x : ℝ) :
+    Gen.compressorGain eps p x ≤ 0 := by
+  rw [compressorGain_eq p hR hW]
+  have hRr : (1 : ℝ) ≤ (p.R : ℝ) := by exact_mod_cast hR
+  have : 1 / (p.R : ℝ) ≤ 1 := by rw [div_le_one (by linarith)]; exact hRr
+  linarith [curve_le_self (T := p.T) this hW (lvl x)]
+
+theorem limiterGain_nonpos (p : Gen.LimiterParams ℝ) (hW : 0 ≤ p.W) (x : ℝ) :
+    Gen.limiterGain eps p x ≤ 0 := by
+  rw [limiterGain_eq p hW]
+  linarith [curve_le_self (T := p.T) (zero_le_one) hW (lvl x)]
+
+/-- **T20.1 (gain_range), compressor, one step:** `gs ≤ 0` is preserved and the emitted gain is in `(0, 1]`. -/
+theorem Comp.step_gain_range {p : Comp ℝ} (hp : Comp.Admissible p) {gs : ℝ} (hgs : gs ≤ 0) (x : ℝ) :
+    (Comp.step p gs x).gs ≤ 0 ∧ 0 < (Comp.step p gs x).gain ∧ (Comp.step p gs x).gain ≤ 1 := by
+  have h := smooth_nonpos hp.wA0 hp.wA1 hp.wR0 hp.wR1 hgs (compressorGain_nonpos p.gp hp.ratio hp.knee x)
+  exact ⟨h, db2mag_pos _, (db2mag_le_one_iff _).mpr h⟩
+
+theorem Lim.step_gain_range {p : Lim ℝ} (hp : Lim.Admissible p) {gs : ℝ} (hgs : gs ≤ 0) (x : ℝ) :
+    (Lim.step p gs x).gs ≤ 0 ∧ 0 < (Lim.step p gs x).gain ∧ (Lim.step p gs x).gain ≤ 1 := by
+  have h := smooth_nonpos hp.wA0 hp.wA1 hp.wR0 hp.wR1 hgs (limiterGain_nonpos p.gp hp.knee x)
+  exact ⟨h, db2mag_pos _, (db2mag_le_one_iff _).mpr h⟩
+
+/-- **T20.1 (gain_range), Compressor.**  For every admitted parameter set, every input signal and every earlier
+history (any reachable `gs_ ≤ 0`, initially `0`): after `process`, `gs_ ≤ 0` again, and EVERY emitted gain lies
+in `(0, 1]`, every output sample is `x[i]·gain[i]`, hence `|out[i]| ≤ |x[i]|` — the compressor never amplifies. -/
+theorem Comp.gain_range {p : Comp ℝ} (hp : Comp.Admissible p) {gs : ℝ} (hgs : gs ≤ 0) (x : Array ℝ) :
+    (processWith (Comp.step p) gs x).1 ≤ 0 ∧
+    ∃ (h1 : (processWith (Comp.step p) gs x).2.1.size = x.size) (h2 : (processWith (Comp.step p) gs x).2.2.size = x.size),
+      ∀ i (hi : i < x.size),
+        0 < (processWith (Comp.step p) gs x).2.1[i] ∧ (processWith (Comp.step p) gs x).2.1[i] ≤ 1 ∧
+        (processWith (Comp.step p) gs x).2.2[i] = x[i] * (processWith (Comp.step p) gs x).2.1[i] ∧
+        |(processWith (Comp.step p) gs x).2.2[i]| ≤ |x[i]| := by
+  refine processWith_inv (Comp.step p) (fun g => g ≤ 0) (fun xi g o => 0 < g ∧ g ≤ 1 ∧ o = xi * g ∧ |o| ≤ |xi|) ?_ gs hgs x
+  intro g xi hg
+  obtain ⟨h1, h2, h3⟩ := Comp.step_gain_range hp hg xi
+  refine ⟨h1, h2, h3, rfl, ?_⟩
+  show |xi * (Comp.step p g xi).gain| ≤ |xi|
+  rw [abs_mul, abs_of_pos h2]
+  exact mul_le_of_le_one_right (abs_nonneg _) h3
+
+/-- **T20.1 (gain_range), Limiter.** -/
+theorem Lim.gain_range {p : Lim ℝ} (hp : Lim.Admissible p) {gs : ℝ} (hgs : gs ≤ 0) (x : Array ℝ) :
+    (processWith (Lim.step p) gs x).1 ≤ 0 ∧
+    ∃ (h1 : (processWith (Lim.step p) gs x).2.1.size = x.size) (h2 : (processWith (Lim.step p) gs x).2.2.size = x.size),
+      ∀ i (hi : i < x.size),
+        0 < (processWith (Lim.step p) gs x).2.1[i] ∧ (processWith (Lim.step p) gs x).2.1[i] ≤ 1 ∧
+        (processWith (Lim.step p) gs x).2.2[i] = x[i] * (processWith (Lim.step p) gs x).2.1[i] ∧
+        |(processWith (Lim.step p) gs x).2.2[i]| ≤ |x[i]| := by
+  refine processWith_inv (Lim.step p) (fun g => g ≤ 0) (fun xi g o => 0 < g ∧ g ≤ 1 ∧ o = xi * g ∧ |o| ≤ |xi|) ?_ gs hgs x
+  intro g xi hg
+  obtain ⟨h1, h2, h3⟩ := Lim.step_gain_range hp hg xi
+  refine ⟨h1, h2, h3, rfl, ?_⟩
+  show |xi * (Lim.step p g xi).gain| ≤ |xi|
+  rw [abs_mul, abs_of_pos h2]
+  exact mul_le_of_le_one_right (abs_nonneg _) h3
+
+/-- zero attack and release TIMES give zero coefficients (through the real constructor) -/
+theorem Comp.init_zero_times {fs : ℕ} {T W : ℝ} {R : ℤ} {p : Comp ℝ}
+    (h : Comp.init fs T R W 0 0 = .ok p) : p.wA = 0 ∧ p.wR = 0 := by
+  unfold Comp.init at h
+  split_ifs at h
+  cases h
+  exact ⟨coef_zero _, coef_zero _⟩
+
+theorem Lim.init_zero_attack {fs : ℕ} {T W tr : ℝ} {p : Lim ℝ}
+    (h : Lim.init fs T W 0 tr = .ok p) : p.wA = 0 := by
+  unfold Lim.init at h
+  split_ifs at h
+  cases h
+  exact coef_zero _
+
+/-- **T20.2 (static_curve), Compressor.**  With zero attack and release the processor is memoryless and, for every
+non-zero sample and whatever happened before, its output LEVEL is the input level moved by
+`characteristic(L) − L`, `L = mag2db(|x| + eps())` being the level the code measures:
+unity below `T − W/2`, slope `1/ratio` above `T + W/2`, the quadratic knee in between. -/
+theorem Comp.static_curve {p : Comp ℝ} (hp : Comp.Admissible p) (hA : p.wA = 0) (hR : p.wR = 0) (gs : ℝ)
+    {x : ℝ} (hx : x ≠ 0) :
+    Gen.mag2db |(Comp.step p gs x).out| =
+      Gen.mag2db |x| + (curve p.gp.T (1 / (p.gp.R : ℝ)) p.gp.W (lvl x) - lvl x) ∧
+    (Comp.step p gs x).gs = curve p.gp.T (1 / (p.gp.R : ℝ)) p.gp.W (lvl x) - lvl x := by
+  have e : (Comp.step p gs x).gs = curve p.gp.T (1 / (p.gp.R : ℝ)) p.gp.W (lvl x) - lvl x := by
+    show smooth p.wA p.wR gs (Gen.compressorGain eps p.gp x) = _
+    rw [hA, hR, smooth_zero, compressorGain_eq p.gp hp.ratio hp.knee]
+  refine ⟨?_, e⟩
+  show Gen.mag2db |x * Gen.db2mag (Comp.step p gs x).gs| = _
+  rw [mag2db_scaled hx, e]
+
+/-- **T20.2 (static_curve), Limiter:** same with the flat ceiling (`s = 0`). -/
+theorem Lim.static_curve {p : Lim ℝ} (hp : Lim.Admissible p) (hA : p.wA = 0) (hR : p.wR = 0) (gs : ℝ)
+    {x : ℝ} (hx : x ≠ 0) :
+    Gen.mag2db |(Lim.step p gs x).out| = Gen.mag2db |x| + (curve p.gp.T 0 p.gp.W (lvl x) - lvl x) ∧
+    (Lim.step p gs x).gs = curve p.gp.T 0 p.gp.W (lvl x) - lvl x := by
+  have e : (Lim.step p gs x).gs = curve p.gp.T 0 p.gp.W (lvl x) - lvl x := by
+    show smooth p.wA p.wR gs (Gen.limiterGain eps p.gp x) = _
+    rw [hA, hR, smooth_zero, limiterGain_eq p.gp hp.knee]
+  refine ⟨?_, e⟩
+  show Gen.mag2db |x * Gen.db2mag (Lim.step p gs x).gs| = _
+  rw [mag2db_scaled hx, e]
+
+/-- `|x| ≤ db2mag (lvl x)`: the measured level (with `eps()` added) is never below the true one -/
+theorem abs_le_db2mag_lvl (x : ℝ) : |x| ≤ Gen.db2mag (lvl x) := by
+  unfold lvl
+  rw [db2mag_mag2db (by linarith [abs_nonneg x, eps_pos])]
+  linarith [eps_pos]
+
+/-- **T20.3 (limiter_ceiling), one step.**  Zero attack coefficient, any release coefficient in `[0,1]`, any knee,
+ANY previous smoothed gain: level + smoothed gain ≤ threshold, and `|out| ≤ db2mag(threshold)`. -/
+theorem Lim.step_ceiling {p : Lim ℝ} (hp : Lim.Admissible p) (hA : p.wA = 0) (gs x : ℝ) :
+    lvl x + (Lim.step p gs x).gs ≤ p.gp.T ∧ |(Lim.step p gs x).out| ≤ Gen.db2mag p.gp.T := by
+  have h1 : (Lim.step p gs x).gs ≤ Gen.limiterGain eps p.gp x := by
+    show smooth p.wA p.wR gs _ ≤ _
+    rw [hA]; exact smooth_zero_attack_le hp.wR0 _ _
+  have h2 : lvl x + (Lim.step p gs x).gs ≤ p.gp.T := by
+    rw [limiterGain_eq p.gp hp.knee] at h1
+    linarith [curve_limiter_le (T := p.gp.T) hp.knee (lvl x)]
+  refine ⟨h2, ?_⟩
+  show |x * Gen.db2mag (Lim.step p gs x).gs| ≤ _
+  rw [abs_mul, abs_of_pos (db2mag_pos _)]
+  calc |x| * Gen.db2mag (Lim.step p gs x).gs
+      ≤ Gen.db2mag (lvl x) * Gen.db2mag (Lim.step p gs x).gs :=
+        mul_le_mul_of_nonneg_right (abs_le_db2mag_lvl x) (db2mag_pos _).le
+    _ = Gen.db2mag (lvl x + (Lim.step p gs x).gs) := (db2mag_add _ _).symm
+    _ ≤ Gen.db2mag p.gp.T := db2mag_mono h2
+
+/-- **T20.3 (limiter_ceiling).**  A limiter with zero attack never lets `|out|` exceed its threshold:
+for arbitrary signals, arbitrary release time and knee width, and whatever state `gs_` it starts from. -/
+theorem Lim.ceiling {p : Lim ℝ} (hp : Lim.Admissible p) (hA : p.wA = 0) (gs : ℝ) (x : Array ℝ) :
+    ∃ (_ : (processWith (Lim.step p) gs x).2.1.size = x.size) (h2 : (processWith (Lim.step p) gs x).2.2.size = x.size),
+      ∀ i (hi : i < x.size), |(processWith (Lim.step p) gs x).2.2[i]| ≤ Gen.db2mag p.gp.T :=
+  (processWith_inv (Lim.step p) (fun _ => True) (fun _ _ o => |o| ≤ Gen.db2mag p.gp.T)
+    (fun g xi _ => ⟨trivial, (Lim.step_ceiling hp hA g xi).2⟩) gs trivial x).2
+
+/-- through the real constructor: `Limiter(fs, T, W, attack = 0, release)` -/
+theorem Lim.ceiling_of_init {fs : ℕ} (hfs : 0 < fs) {T W tr : ℝ} {p : Lim ℝ} (h : Lim.init fs T W 0 tr = .ok p)
+    (gs : ℝ) (x : Array ℝ) :
+    ∃ (_ : (processWith (Lim.step p) gs x).2.1.size = x.size) (h2 : (processWith (Lim.step p) gs x).2.2.size = x.size),
+      ∀ i (hi : i < x.size), |(processWith (Lim.step p) gs x).2.2[i]| ≤ Gen.db2mag T := by
+  have hT : p.gp.T = T := (Lim.init_ok hfs h).2.1
+  rw [← hT]
+  exact Lim.ceiling (Lim.init_ok hfs h).1 (Lim.init_zero_attack h) gs x
+
+/-- **T20.1 through the real constructor.**  `Compressor(fs, T, R, W, ta, tr)` accepted, `fs > 0` ⇒ never amplifies. -/
+theorem Comp.gain_range_of_init {fs : ℕ} (hfs : 0 < fs) {T W ta tr : ℝ} {R : ℤ} {p : Comp ℝ}
+    (h : Comp.init fs T R W ta tr = .ok p) (x : Array ℝ) :
+    ∃ (h1 : (processWith (Comp.step p) 0 x).2.1.size = x.size) (h2 : (processWith (Comp.step p) 0 x).2.2.size = x.size),
+      ∀ i (hi : i < x.size),
+        0 < (processWith (Comp.step p) 0 x).2.1[i] ∧ (processWith (Comp.step p) 0 x).2.1[i] ≤ 1 ∧
+        (processWith (Comp.step p) 0 x).2.2[i] = x[i] * (processWith (Comp.step p) 0 x).2.1[i] ∧
+        |(processWith (Comp.step p) 0 x).2.2[i]| ≤ |x[i]| :=
+  (Comp.gain_range (Comp.init_ok hfs h).1 (le_refl 0) x).2
+
+/-- **T20.2 through the real constructor:** `Compressor(fs, T, R, W, 0, 0)` realises the documented curve of
+`(T, 1/R, W)` on every non-zero sample, from any state. -/
+theorem Comp.static_curve_of_init {fs : ℕ} (hfs : 0 < fs) {T W : ℝ} {R : ℤ} {p : Comp ℝ}
+    (h : Comp.init fs T R W 0 0 = .ok p) (gs : ℝ) {x : ℝ} (hx : x ≠ 0) :
+    Gen.mag2db |(Comp.step p gs x).out| = Gen.mag2db |x| + (curve T (1 / (R : ℝ)) W (lvl x) - lvl x) := by
+  obtain ⟨ha, hT, hR, hW, _⟩ := Comp.init_ok hfs h
+  have := (Comp.static_curve ha (Comp.init_zero_times h).1 (Comp.init_zero_times h).2 gs hx).1
+  rw [hT, hR, hW] at this
+  exact this
+
+/-! ## NoiseGate (T20.1: `lg ∈ [0, 1]`) -/
+
+structure Gate.Admissible (p : Gate ℝ) : Prop where
+  wA0 : 0 ≤ p.wA
+  wA1 : p.wA ≤ 1
+  wR0 : 0 ≤ p.wR
+  wR1 : p.wR ≤ 1
+
+theorem Gate.init_ok {fs : ℕ} (hfs : 0 < fs) {T ta tr th : ℝ} {p : Gate ℝ}
+    (h : Gate.init fs T ta tr th = .ok p) : Gate.Admissible p := by
+  unfold Gate.init at h
+  simp only [fn_ofNat, fn_ofInt] at h
+  split_ifs at h with h1 h2 h3 h4
+  cases h
+  have hfs' : (0 : ℝ) < (fs : ℝ) := by exact_mod_cast hfs
+  have cA := coef_mem hfs' (by simpa using h2.1 : (0 : ℝ) ≤ ta)
+  have cR := coef_mem hfs' (by simpa using h3.1 : (0 : ℝ) ≤ tr)
+  exact ⟨cA.1, cA.2.le, cR.1, cR.2.le⟩
+
+theorem Gate.smoothGain_range {p : Gate ℝ} (hp : Gate.Admissible p) {s : GateState ℝ}
+    (hs : 0 ≤ s.lg ∧ s.lg ≤ 1) {gc : ℝ} (hgc : 0 ≤ gc ∧ gc ≤ 1) :
+    0 ≤ (Gate.smoothGain p s gc).lg ∧ (Gate.smoothGain p s gc).lg ≤ 1 := by
+  unfold Gate.smoothGain
+  simp only [fn_ofNat, Nat.cast_one]
+  split_ifs
+  · exact hgc
+  · exact hs
+  · show 0 ≤ p.wA * s.lg + (1 - p.wA) * gc ∧ p.wA * s.lg + (1 - p.wA) * gc ≤ 1
+    constructor
+    · nlinarith [mul_nonneg hp.wA0 hs.1, mul_nonneg (sub_nonneg.mpr hp.wA1) hgc.1]
+    · nlinarith [mul_nonneg hp.wA0 (sub_nonneg.mpr hs.2), mul_nonneg (sub_nonneg.mpr hp.wA1) (sub_nonneg.mpr hgc.2)]
+  · show 0 ≤ p.wR * s.lg + (1 - p.wR) * gc ∧ p.wR * s.lg + (1 - p.wR) * gc ≤ 1
+    constructor
+    · nlinarith [mul_nonneg hp.wR0 hs.1, mul_nonneg (sub_nonneg.mpr hp.wR1) hgc.1]
+    · nlinarith [mul_nonneg hp.wR0 (sub_nonneg.mpr hs.2), mul_nonneg (sub_nonneg.mpr hp.wR1) (sub_nonneg.mpr hgc.2)]
+
+theorem Gate.step_range {p : Gate ℝ} (hp : Gate.Admissible p) {s : GateState ℝ} (hs : 0 ≤ s.lg ∧ s.lg ≤ 1) (x : ℝ) :
+    (0 ≤ (Gate.step p s x).1.lg ∧ (Gate.step p s x).1.lg ≤ 1) ∧
+    (Gate.step p s x).2.1 = (Gate.step p s x).1.lg ∧ (Gate.step p s x).2.2 = x * (Gate.step p s x).2.1 := by
+  refine ⟨?_, rfl, rfl⟩
+  unfold Gate.step
+  simp only [fn_ofNat, Nat.cast_one, Nat.cast_zero]
+  apply Gate.smoothGain_range hp hs
+  split_ifs <;> norm_num
+
+/-- **T20.1 (gain_range), NoiseGate.**  For every admitted parameter set, every signal and every earlier history
+(any state with `lg_ ∈ [0,1]`, initially `0`): every emitted gain is in `[0, 1]`, `out[i] = x[i]·gain[i]`,
+`|out[i]| ≤ |x[i]|`, and `lg_ ∈ [0,1]` again afterwards. -/
+theorem Gate.gain_range {p : Gate ℝ} (hp : Gate.Admissible p) {s : GateState ℝ} (hs : 0 ≤ s.lg ∧ s.lg ≤ 1)
+    (x : Array ℝ) :
+    (0 ≤ (Gate.process p s x).1.lg ∧ (Gate.process p s x).1.lg ≤ 1) ∧
+    ∃ (h1 : (Gate.process p s x).2.1.size = x.size) (h2 : (Gate.process p s x).2.2.size = x.size),
+      ∀ i (hi : i < x.size),
+        0 ≤ (Gate.process p s x).2.1[i] ∧ (Gate.process p s x).2.1[i] ≤ 1 ∧
+        (Gate.process p s x).2.2[i] = x[i] * (Gate.process p s x).2.1[i] ∧
+        |(Gate.process p s x).2.2[i]| ≤ |x[i]| := by
+  refine foldPush_inv (Gate.step p) (fun st => 0 ≤ st.lg ∧ st.lg ≤ 1)
+    (fun xi g o => 0 ≤ g ∧ g ≤ 1 ∧ o = xi * g ∧ |o| ≤ |xi|) ?_ s hs x x.size x.size
+  intro st xi hst
+  obtain ⟨h1, h2, h3⟩ := Gate.step_range hp hst xi
+  refine ⟨h1, by rw [h2]; exact h1.1, by rw [h2]; exact h1.2, h3, ?_⟩
+  rw [h3, abs_mul, h2, abs_of_nonneg h1.1]
+  exact mul_le_of_le_one_right (abs_nonneg _) h1.2
+
+theorem Gate.gain_range_of_init {fs : ℕ} (hfs : 0 < fs) {T ta tr th : ℝ} {p : Gate ℝ}
+    (h : Gate.init fs T ta tr th = .ok p) (x : Array ℝ) :
+    ∃ (h1 : (Gate.process p Gate.init0 x).2.1.size = x.size) (h2 : (Gate.process p Gate.init0 x).2.2.size = x.size),
+      ∀ i (hi : i < x.size),
+        0 ≤ (Gate.process p Gate.init0 x).2.1[i] ∧ (Gate.process p Gate.init0 x).2.1[i] ≤ 1 ∧
+        (Gate.process p Gate.init0 x).2.2[i] = x[i] * (Gate.process p Gate.init0 x).2.1[i] ∧
+        |(Gate.process p Gate.init0 x).2.2[i]| ≤ |x[i]| :=
+  (Gate.gain_range (Gate.init_ok hfs h) (s := Gate.init0) (by simp [Gate.init0]) x).2
+
+/-! ## Agc (T20.5) -/
+
+theorem Agc.gainStep_real (p : Agc ℝ) (g P : ℝ) :
+    Agc.gainStep p g P =
+      (if p.maxGain < (if 1 < p.target - (Real.log P + 2 * g) then g + p.trise * (p.target - (Real.log P + 2 * g))
+                        else g + p.tfall * (p.target - (Real.log P + 2 * g)))
+       then p.maxGain
+       else (if 1 < p.target - (Real.log P + 2 * g) then g + p.trise * (p.target - (Real.log P + 2 * g))
+             else g + p.tfall * (p.target - (Real.log P + 2 * g)))) := by
+  simp [Agc.gainStep]
+
+/-- the clamp: the log-gain never exceeds `max_gain` after an update -/
+theorem Agc.gainStep_le (p : Agc ℝ) (g P : ℝ) : Agc.gainStep p g P ≤ p.maxGain := by
+  rw [Agc.gainStep_real]
+  split_ifs <;> first | exact le_refl _ | (apply not_lt.mp; assumption)
+
+/-- the constructor stores `max_gain` so that `exp(maxGain) = 10^(max_gain_dB/20)` -/
+theorem Agc.init_maxGain {tl mg tri tfa : ℝ} {n : ℤ} {p : Agc ℝ} {s : AgcState ℝ}
+    (h : Agc.init tl mg n tri tfa = .ok (p, s)) :
+    Real.exp p.maxGain = Gen.db2mag mg ∧ p.target = Real.log tl ∧ p.trise = tri ∧ p.tfall = tfa ∧ 0 < n := by
+  unfold Agc.init at h
+  split_ifs at h with hn
+  simp only [Except.ok.injEq, Prod.mk.injEq] at h
+  obtain ⟨hp, _⟩ := h
+  subst hp
+  refine ⟨?_, rfl, rfl, rfl, by simpa using hn⟩
+  simp only [fn_log, fn_pow, fn_ofNat, Nat.cast_ofNat]
+  rw [Real.exp_log (Real.rpow_pos_of_pos (by norm_num) _), db2mag_real]
+
+/-- **T20.5 (gain ≤ max_gain), one sample** -/
+theorem Agc.step_gain_le (p : Agc ℝ) (s : AgcState ℝ) (pw : ℝ) :
+    0 < (Agc.step p s pw).2 ∧ (Agc.step p s pw).2 ≤ Real.exp p.maxGain ∧ (Agc.step p s pw).1.gain ≤ p.maxGain := by
+  refine ⟨Real.exp_pos _, ?_, ?_⟩
+  · exact Real.exp_le_exp.mpr (Agc.gainStep_le _ _ _)
+  · exact Agc.gainStep_le _ _ _
+
+/-- **T20.5 (Agc never exceeds max_gain), real signals.**  For every parameter set, state and signal, every emitted
+gain is positive and at most `exp(maxGain)` (`= 10^(max_gain/20)` by `Agc.init_maxGain`), `out[i] = x[i]·gain[i]`. -/
+theorem Agc.gain_le_max_real (p : Agc ℝ) (s : AgcState ℝ) (x : Array ℝ) :
+    ∃ (h1 : (Agc.processR p s x).2.1.size = x.size) (h2 : (Agc.processR p s x).2.2.size = x.size),
+      ∀ i (hi : i < x.size),
+        0 < (Agc.processR p s x).2.1[i] ∧ (Agc.processR p s x).2.1[i] ≤ Real.exp p.maxGain ∧
+        (Agc.processR p s x).2.2[i] = x[i] * (Agc.processR p s x).2.1[i] :=
+  (foldPush_inv (fun st (xi : ℝ) => ((Agc.step p st (xi * xi)).1, (Agc.step p st (xi * xi)).2, xi * (Agc.step p st (xi * xi)).2))
+    (fun _ => True) (fun xi g o => 0 < g ∧ g ≤ Real.exp p.maxGain ∧ o = xi * g)
+    (fun st _ _ => ⟨trivial, (Agc.step_gain_le p st _).1, (Agc.step_gain_le p st _).2.1, rfl⟩) s trivial x x.size x.size).2
+
+/-- **T20.5 (Agc never exceeds max_gain), complex signals.** -/
+theorem Agc.gain_le_max_cmplx (p : Agc ℝ) (s : AgcState ℝ) (x : Array (Cx ℝ)) :
+    ∃ (h1 : (Agc.processC p s x).2.1.size = x.size) (h2 : (Agc.processC p s x).2.2.size = x.size),
+      ∀ i (hi : i < x.size),
+        0 < (Agc.processC p s x).2.1[i] ∧ (Agc.processC p s x).2.1[i] ≤ Real.exp p.maxGain ∧
+        (Agc.processC p s x).2.2[i] = ⟨x[i].re * (Agc.processC p s x).2.1[i], x[i].im * (Agc.processC p s x).2.1[i]⟩ :=
+  (foldPush_inv (fun st (xi : Cx ℝ) => ((Agc.step p st (Cx.abs2 xi)).1, (Agc.step p st (Cx.abs2 xi)).2,
+      (⟨xi.re * (Agc.step p st (Cx.abs2 xi)).2, xi.im * (Agc.step p st (Cx.abs2 xi)).2⟩ : Cx ℝ)))
+    (fun _ => True) (fun xi g o => 0 < g ∧ g ≤ Real.exp p.maxGain ∧ o = ⟨xi.re * g, xi.im * g⟩)
+    (fun st _ _ => ⟨trivial, (Agc.step_gain_le p st _).1, (Agc.step_gain_le p st _).2.1, rfl⟩) s trivial x x.size x.size).2
+
+/-- the loop's error signal: `err = target − (ln(input_power) + 2·gain)` (log-domain level error) -/
+def Agc.err (p : Agc ℝ) (g P : ℝ) : ℝ := p.target - (Real.log P + 2 * g)
+
+/-- the step size the loop picks -/
+def Agc.stepSize (p : Agc ℝ) (g P : ℝ) : ℝ := if 1 < Agc.err p g P then p.trise else p.tfall
+
+/-- **T20.5 (contraction), one sample.**  Step sizes in `[0, 1/2]`, current log-gain at most `maxGain`, and the
+gain REQUIRED for the target, `(target − ln P)/2`, at most `maxGain`: the clamp stays inactive and the level error
+is multiplied by `1 − 2t`. -/
+theorem Agc.err_step {p : Agc ℝ} (hr0 : 0 ≤ p.trise) (hr1 : p.trise ≤ 1 / 2) (hf0 : 0 ≤ p.tfall) (hf1 : p.tfall ≤ 1 / 2)
+    {g P : ℝ} (hg : g ≤ p.maxGain) (hreq : (p.target - Real.log P) / 2 ≤ p.maxGain) :
+    Agc.gainStep p g P = g + Agc.stepSize p g P * Agc.err p g P ∧
+    Agc.err p (Agc.gainStep p g P) P = (1 - 2 * Agc.stepSize p g P) * Agc.err p g P := by
+  have ht0 : 0 ≤ Agc.stepSize p g P := by unfold Agc.stepSize; split_ifs <;> assumption
+  have ht1 : Agc.stepSize p g P ≤ 1 / 2 := by unfold Agc.stepSize; split_ifs <;> assumption
+  have e : Agc.gainStep p g P = g + Agc.stepSize p g P * Agc.err p g P := by
+    rw [Agc.gainStep_real]
+    have inner : (if 1 < p.target - (Real.log P + 2 * g) then g + p.trise * (p.target - (Real.log P + 2 * g))
+        else g + p.tfall * (p.target - (Real.log P + 2 * g))) = g + Agc.stepSize p g P * Agc.err p g P := by
+      unfold Agc.stepSize Agc.err; split_ifs <;> rfl
+    rw [inner, if_neg]
+    -- g + t·err = (1 − 2t)·g + 2t·g*, a convex combination of g and the required gain g* ≤ maxGain
+    have : g + Agc.stepSize p g P * Agc.err p g P =
+        (1 - 2 * Agc.stepSize p g P) * g + 2 * Agc.stepSize p g P * ((p.target - Real.log P) / 2) := by
+      unfold Agc.err; ring
+    rw [this, not_lt]
+    nlinarith [mul_nonneg (by linarith : 0 ≤ 1 - 2 * Agc.stepSize p g P) (sub_nonneg.mpr hg),
+      mul_nonneg (by linarith : 0 ≤ 2 * Agc.stepSize p g P) (sub_nonneg.mpr hreq)]
+  refine ⟨e, ?_⟩
+  rw [e]; unfold Agc.err; ring
+
+/-- **T20.5 (contraction).**  For a constant input power `P` (constant-envelope input, filled averaging window) whose
+required gain is at most `maxGain`, `n` samples shrink the level error geometrically:
+`|err_n| ≤ (1 − 2·min(t_rise, t_fall))^n · |err_0|`; the log-gain stays `≤ maxGain` throughout. -/
+theorem Agc.err_iter {p : Agc ℝ} (hr0 : 0 ≤ p.trise) (hr1 : p.trise ≤ 1 / 2) (hf0 : 0 ≤ p.tfall) (hf1 : p.tfall ≤ 1 / 2)
+    {P : ℝ} (hreq : (p.target - Real.log P) / 2 ≤ p.maxGain) {g : ℝ} (hg : g ≤ p.maxGain) (n : ℕ) :
+    |Agc.err p ((fun g => Agc.gainStep p g P)^[n] g) P| ≤ (1 - 2 * min p.trise p.tfall) ^ n * |Agc.err p g P| ∧
+    (fun g => Agc.gainStep p g P)^[n] g ≤ p.maxGain := by
+  induction n with
+  | zero => simp [hg]
+  | succ k ih =>
+    rw [Function.iterate_succ_apply']
+    obtain ⟨ih1, ih2⟩ := ih
+    set gk := (fun g => Agc.gainStep p g P)^[k] g
+    refine ⟨?_, Agc.gainStep_le _ _ _⟩
+    rw [(Agc.err_step hr0 hr1 hf0 hf1 ih2 hreq).2, abs_mul, pow_succ]
+    have ht0 : 0 ≤ Agc.stepSize p gk P := by unfold Agc.stepSize; split_ifs <;> assumption
+    have ht1 : Agc.stepSize p gk P ≤ 1 / 2 := by unfold Agc.stepSize; split_ifs <;> assumption
+    have hm : min p.trise p.tfall ≤ Agc.stepSize p gk P := by
+      unfold Agc.stepSize; split_ifs
+      · exact min_le_left _ _
+      · exact min_le_right _ _
+    have hq0 : 0 ≤ 1 - 2 * Agc.stepSize p gk P := by linarith
+    rw [abs_of_nonneg hq0]
+    have hq : 1 - 2 * Agc.stepSize p gk P ≤ 1 - 2 * min p.trise p.tfall := by linarith
+    have hmin0 : 0 ≤ 1 - 2 * min p.trise p.tfall := le_trans hq0 hq
+    calc (1 - 2 * Agc.stepSize p gk P) * |Agc.err p gk P|
+        ≤ (1 - 2 * min p.trise p.tfall) * ((1 - 2 * min p.trise p.tfall) ^ k * |Agc.err p g P|) :=
+          mul_le_mul hq ih1 (abs_nonneg _) hmin0
+      _ = (1 - 2 * min p.trise p.tfall) ^ k * (1 - 2 * min p.trise p.tfall) * |Agc.err p g P| := by ring
+
+/-- what the error means: output power `gain² · P` equals the target level times `exp(−err)` -/
+theorem Agc.out_power {p : Agc ℝ} {tl : ℝ} (htl : 0 < tl) (hp : p.target = Real.log tl) {P : ℝ} (hP : 0 < P) (g : ℝ) :
+    Real.exp g ^ 2 * P = tl * Real.exp (-(Agc.err p g P)) := by
+  unfold Agc.err
+  rw [hp]
+  have : -(Real.log tl - (Real.log P + 2 * g)) = (g + g) + Real.log P - Real.log tl := by ring
+  rw [this, Real.exp_sub, Real.exp_add, Real.exp_add, Real.exp_log hP, Real.exp_log htl]
+  field_simp
+
+/-- **T20.5 (target level).**  Once the level error is within `ln 1.01`, the output power is within 1 % of the
+target level. (That the `Float` loop gets there is measured by the oracle.) -/
+theorem Agc.level_within {p : Agc ℝ} {tl : ℝ} (htl : 0 < tl) (hp : p.target = Real.log tl) {P : ℝ} (hP : 0 < P) {g : ℝ}
+    (he : |Agc.err p g P| ≤ Real.log 1.01) :
+    0.99 * tl ≤ Real.exp g ^ 2 * P ∧ Real.exp g ^ 2 * P ≤ 1.01 * tl := by
+  rw [Agc.out_power htl hp hP]
+  obtain ⟨h1, h2⟩ := abs_le.mp he
+  have hu : Real.exp (-(Agc.err p g P)) ≤ 1.01 := by
+    calc Real.exp (-(Agc.err p g P)) ≤ Real.exp (Real.log 1.01) := Real.exp_le_exp.mpr (by linarith)
+      _ = 1.01 := Real.exp_log (by norm_num)
+  have hl : (1.01 : ℝ)⁻¹ ≤ Real.exp (-(Agc.err p g P)) := by
+    calc (1.01 : ℝ)⁻¹ = Real.exp (-(Real.log 1.01)) := by rw [Real.exp_neg, Real.exp_log (by norm_num)]
+      _ ≤ Real.exp (-(Agc.err p g P)) := Real.exp_le_exp.mpr (by linarith)
+  have hl' : (0.99 : ℝ) ≤ Real.exp (-(Agc.err p g P)) := le_trans (by norm_num) hl
+  constructor <;> nlinarith
+
+/-! ## Moving average: a constant-envelope input gives a constant power estimate -/
+
+theorem MA.sum_const {a : Array ℝ} {c : ℝ} (h : ∀ i (hi : i < a.size), a[i] = c) : MA.sum a = a.size * c := by
+  unfold MA.sum
+  have := Array.foldl_induction (as := a) (motive := fun i (acc : ℝ) => acc = i * c) (init := (Fn.ofNat 0 : ℝ))
+    (f := fun s v => s + v) (by simp)
+    (by
+      rintro ⟨i, hi⟩ b hb
+      simp only [Fin.getElem_fin] at hb ⊢
+      rw [hb, h i hi]; push_cast; ring)
+  exact this
+
+/-- the window is full of the constant `c` and the running sum is exact -/
+structure MA.Steady (m : MA ℝ) (c : ℝ) : Prop where
+  size : m.buf.size = m.n
+  npos : 0 < m.n
+  pos : m.pos < m.n
+  all : ∀ i (hi : i < m.buf.size), m.buf[i] = c
+  acc : m.accum = m.n * c
+
+/-- **T20.5 (constant-envelope input).**  Once the averaging window holds the constant power `c`, every further
+sample of power `c` keeps it so and `MAFilter::process` returns exactly `c` — the `P` of `Agc.err_iter` is constant. -/
+theorem MA.step_steady {m : MA ℝ} {c : ℝ} (h : MA.Steady m c) :
+    MA.Steady (MA.step m c).1 c ∧ (MA.step m c).2 = c := by
+  obtain ⟨hs, hn, hp, hall, hacc⟩ := h
+  have hn' : (m.n : ℝ) ≠ 0 := by exact_mod_cast hn.ne'
+  have hall' : ∀ i (hi : i < (m.buf.setIfInBounds m.pos c).size), (m.buf.setIfInBounds m.pos c)[i] = c := by
+    intro i hi
+    rw [Array.getElem_setIfInBounds]
+    split_ifs
+    · rfl
+    · exact hall i (by simpa using hi)
+  have hsz : (m.buf.setIfInBounds m.pos c).size = m.n := by simp [hs]
+  have hget : m.buf.getD m.pos ((0 : ℕ) : ℝ) = c := by
+    have hlt : m.pos < m.buf.size := by omega
+    simp [Array.getD, hlt, hall m.pos hlt]
+  unfold MA.step
+  simp only [fn_ofNat, hget]
+  split_ifs with hw
+  · refine ⟨⟨hsz, hn, hn, hall', ?_⟩, ?_⟩
+    · show MA.sum _ = _
+      rw [MA.sum_const hall', hsz]
+    · show MA.sum _ / (m.n : ℝ) = c
+      rw [MA.sum_const hall', hsz]; field_simp
+  · refine ⟨⟨hsz, hn, by show m.pos + 1 < m.n; omega, hall', ?_⟩, ?_⟩
+    · show m.accum - c + c = _
+      rw [hacc]; ring
+    · show (m.accum - c + c) / (m.n : ℝ) = c
+      rw [hacc]; field_simp; ring
+
+/-! ## Non-vacuity: the hypotheses at concrete, non-trivial parameter sets -/
+
+/-- the default compressor with a 10 dB knee, zero attack/release -/
+example : Comp.Admissible { gp := { T := -10, R := 5, W := 10 }, wA := 0, wR := 0 } := by
+  constructor <;> norm_num
+
+/-- the point of the repaired defect (ratio 5, knee 10 dB, threshold −10 dB): at the knee's upper edge, −5 dB in,
+the characteristic gives −9 dB from BOTH sides (knee formula and compression line). -/
+example : curve (-10) (1 / 5) 10 (-5) = -9 := by
+  rw [curve_knee (by norm_num) (by norm_num)]; norm_num
+
+example : curve (-10) (1 / 5) 10 (-5) = -10 + ((-5) - (-10)) * (1 / 5) := by
+  rw [curve_above (by norm_num) (by norm_num)]
+
+/-- inside the knee (−10 dB in): `−10 + (1/5 − 1)·5²/20 = −11` -/
+example : curve (-10) (1 / 5) 10 (-10) = -11 := by
+  rw [curve_knee (by norm_num) (by norm_num)]; norm_num
+
+/-- limiter ceiling, 0 dB in, threshold −6 dB, knee 4 dB -/
+example : curve (-6) 0 4 0 = -6 := by
+  rw [curve_above (by norm_num) (by norm_num)]; norm_num
+
+/-- 10 ms at 44.1 kHz = 441 samples to cover 10 % … 90 % -/
+example : coef (44100 : ℝ) 0.01 ^ 441 = 1 / 9 := coef_pow_samples 441 (by norm_num) (by norm_num)
+
+/-- AGC contraction hypotheses at the defaults (`t = 0.01`, `max_gain` 60 dB, target 1, input power 10⁻⁴):
+required log-gain `ln(10⁴)/2 = ln 100 ≤ ln 1000` -/
+example : let p : Agc ℝ := { trise := 0.01, tfall := 0.01, maxGain := Real.log 1000, target := Real.log 1 }
+    (p.target - Real.log (1 / 10000)) / 2 ≤ p.maxGain := by
+  intro p
+  show (Real.log 1 - Real.log (1 / 10000)) / 2 ≤ Real.log 1000
+  have h1 : Real.log (1 / 10000 : ℝ) = -Real.log 10000 := by rw [one_div, Real.log_inv]
+  have h2 : (10000 : ℝ) = 100 ^ 2 := by norm_num
+  rw [Real.log_one, h1, h2, Real.log_pow]
+  have : Real.log (100 : ℝ) ≤ Real.log 1000 := Real.log_le_log (by norm_num) (by norm_num)
+  push_cast; linarith
 
 end
 
